@@ -6,7 +6,7 @@ from .common import *
 BASE_CONSTS = dict(Keys='{1, 2}', MaxTs='2', Metas='{0}', Sizes='{"s"}', AllowDup='TRUE', MaxRecs='0',
                    Quiesce='TRUE', DeferredFires='TRUE', Deterministic='TRUE', OffloadLevels='{}',
                    RestoreLoadsIndex='TRUE', WorkerSurvives='TRUE', HolesCounted='FALSE',
-                   QuarIdsReserved='TRUE')
+                   QuarIdsReserved='TRUE', IgnoreCorrupted='FALSE')
 
 ALL_INVS = ['TypeOK', 'KeyObsOK', 'ReadOK', 'ContainsOK', 'ReadAllOK', 'ReadWithOK', 'DupOK', 'OrderLemma',
             'IndexIsCache', 'StaleIndexNeverUsed', 'ActiveWritable', 'IdsAboveAllUsed',
